@@ -73,6 +73,19 @@ def evalFn (cfg : Cfg) (toks : List String) : String :=
     let o := cfg.ops
     let cv := String.join ((o.convert g).map hex2)
     s!"mt={fmtNats (o.matchTag g (nat! t))} me={fmtNats (o.matchEmpty g)} ms={fmtNats (o.matchSpecial g)} mf={fmtNats (o.matchFull g)} lz={o.emptyLeadingZeros g} tz={o.emptyTrailingZeros g} cv={cv}"
+  | ["fn", "tlnew", ty] =>
+    -- (size_of, align_of) of the harness's concrete element types on x86_64 (rustc's layout; a change
+    -- there shows as a disagreement in the `in=` part, not as a property violation)
+    let sa : Option (Nat × Nat) := match ty with
+      | "unit" => some (0, 1) | "u8" => some (1, 1) | "u16" => some (2, 2) | "u8x3" => some (3, 1)
+      | "u16x5" => some (10, 2) | "u64" => some (8, 8) | "u128" => some (16, 16) | "pair" => some (16, 8)
+      | "al32" => some (32, 32) | "al64" => some (128, 64) | "al4096" => some (4096, 4096)
+      | "big" => some (200, 8) | _ => none
+    match sa with
+    | none => s!"bad-fn tlnew {ty}"
+    | some (size, align) =>
+      let l := tableLayoutNew W size align
+      s!"in={size} {align} out={l.1} {l.2}"
   | ["fn", "serdezst", _kind, hint] =>
     -- Deserialize of a collection of ZERO-SIZED elements from an empty stream claiming `hint` entries
     -- (`-` = no hint): `with_capacity(cautious(hint))`, element size 0 (a block is control bytes only)
